@@ -1481,4 +1481,44 @@ theorem derive_pre (f : File) (h : Heap) (hG : Good f h) (i x : Nat) (d : Derive
         have := (minMax_pure2 f i _ _ (R_refl gN)).2.2
         split <;> exact push_pre (this.trans sN) _ _
 
+/-- `_get_photon_count` changes `start` only by the repair (which empties the memo table and replaces it) or by
+    the sub-sample workaround (which moves it forward by less than one sample period). -/
+theorem photonAccess_start (f : File) (o : Obj) (c : Color) {o' : Obj} {w : Option (Int × Int)}
+    (hp : photonAccess f o c = .ok (o', w)) :
+    (o'.start = o.start ∧ o'.cache = o.cache ∧ o'.gen = o.gen) ∨ (o'.cache = [] ∧ o'.gen = o.gen + 1) ∨
+      (o.start < o'.start ∧ o'.start - f.dt < o.start ∧ o'.cache = o.cache ∧ o'.gen = o.gen) := by
+  unfold photonAccess at hp
+  cases hc : f.chan c with
+  | none => rw [hc] at hp; cases hp; left; exact ⟨rfl, rfl, rfl⟩
+  | some ch =>
+    rw [hc] at hp
+    simp only at hp
+    cases hw : chanWindow f.dt ch o.start o.stop with
+    | none => rw [hw] at hp; cases hp; left; exact ⟨rfl, rfl, rfl⟩
+    | some tw =>
+      obtain ⟨tl, ce⟩ := tw
+      rw [hw] at hp
+      simp only at hp
+      generalize ho1 : (if tl - f.dt < o.start ∧ o.start < tl then { o with start := tl } else o) = o1 at hp
+      have h1 : (o1.start = o.start ∨ (o.start < o1.start ∧ o1.start - f.dt < o.start)) ∧ o1.cache = o.cache ∧
+          o1.gen = o.gen := by
+        rw [← ho1]
+        split
+        · rename_i hs; exact ⟨Or.inr ⟨hs.2, hs.1⟩, rfl, rfl⟩
+        · exact ⟨Or.inl rfl, rfl, rfl⟩
+      split at hp
+      · cases hfx : fixStart f o1 with
+        | error er => rw [hfx] at hp; cases hp
+        | ok o2 =>
+          rw [hfx] at hp
+          cases hp
+          right; left
+          have := fixStart_shape f _ hfx
+          rw [this]
+          exact ⟨rfl, by simp [h1.2.2]⟩
+      · cases hp
+        rcases h1.1 with h | h
+        · left; exact ⟨h, h1.2.1, h1.2.2⟩
+        · right; right; exact ⟨h.1, h.2, h1.2.1, h1.2.2⟩
+
 end Verif.C19
